@@ -224,6 +224,8 @@ def first_diff(a, b, cmp):
         y = b[i] if i < len(b) else "<missing>"
         if not cmp(x, y):
             return i
+        if x.startswith("PANIC") and y.startswith("PANIC"):
+            return None      # both sides panicked: the state after a panic is not comparable
     return None
 
 
